@@ -26,13 +26,13 @@ import traceback
 from .. import common  # noqa: F401
 from .. import wire
 
-from pytableaux.lang import Argument, LexWriter, Marking, StringTable
+from pytableaux.lang import Argument, LexWriter, Marking, Notation, StringTable
 from pytableaux.logics import registry
 from pytableaux.proof import (AccessNode, ClosureNode, EllipsisNode, FlagNode, SentenceNode, Tableau,
                               helpers)
 from pytableaux.proof.writers import TabWriter, registry as wregistry
 
-NOTATIONS = ('polish', 'standard')
+NOTATIONS = tuple(n.name for n in Notation)      # every notation the library knows (polish, standard)
 
 
 # ---------------------------------------------------------------------------
@@ -265,12 +265,12 @@ def check_text(tab, text, notation, lexopts, bad):
                 if dt != ([lg['desT'] if d else lg['desF']] if d is not None else []):
                     bad('designation', f'{where}: designation marker(s) {dt}, the node has designated={d}')
                 other = [t for t in toks if t not in wt and t not in dt]
-                if other:
+                if len(other) > (1 if getattr(n, 'ticked', None) else 0):      # a ticked node may carry one more mark
                     bad('sentence', f'{where}: unexplained text {other} after the sentence {s!r}')
             elif isinstance(n, AccessNode):
                 toks = [t for t in p.split(' ') if t and t != lg['tick']]
                 exp = f'{lg["world"]}{n["world1"]}{lg["access"]}{lg["world"]}{n["world2"]}'
-                if toks != [exp]:
+                if toks[:1] != [exp] or len(toks) > (2 if getattr(n, 'ticked', None) else 1):
                     bad('access', f'{where}: expected {exp!r}')
             elif isinstance(n, EllipsisNode):
                 if p.split() != [lg['ellipsis']]:
@@ -384,8 +384,20 @@ def run_job(job):
     return out
 
 
+def freeze_clock():
+    """Reproducibility only: the stopwatches of a tableau store millisecond readings as ints; their values decide whether an int
+    object is allocated (> 256) or shared, which shifts heap addresses and with them every id()-based hash, i.e. the tie-breaks of
+    the proof search, with machine load.  C19 is not about time (no build_timeout is ever set here), so the clock source
+    `pytableaux.tools.timing._time` is frozen in this worker process."""
+    from pytableaux.tools import timing
+    timing._time = lambda: 0.0
+
+
 def main():
+    freeze_clock()
     src = open(sys.argv[1]) if len(sys.argv) > 1 else sys.stdin
+    # answers go to a file as well (argv[2]): a full stdout pipe makes the buffered writer re-allocate, which again moves the heap
+    dst = open(sys.argv[2], 'w') if len(sys.argv) > 2 else sys.stdout
     for line in src.read().splitlines():
         line = line.strip()
         if not line:
@@ -396,8 +408,10 @@ def main():
         except Exception as ex:  # noqa
             tb = traceback.format_exc()
             out = dict(id=job.get('id'), error=f'{type(ex).__name__}: {ex}', traceback=tb[-3000:], repo=str(common.REPO) in tb)
-        sys.stdout.write(json.dumps(out) + '\n')
-        sys.stdout.flush()
+        dst.write(json.dumps(out) + '\n')
+        dst.flush()
+    if dst is not sys.stdout:
+        dst.close()
 
 
 if __name__ == '__main__':
